@@ -586,7 +586,10 @@ func (g unionKindedReprBuilderGenerator) EmitNodeAssemblerMethodAssignNode(w io.
 				v2, _ := v.AsBool()
 				return na.AssignBool(v2)
 			case datamodel.Kind_Int:
-				v2, _ := v.AsInt()
+				v2, err := v.AsInt()
+				if err != nil {
+					return err
+				}
 				return na.AssignInt(v2)
 			case datamodel.Kind_Float:
 				v2, _ := v.AsFloat()
